@@ -78,6 +78,7 @@ class FnBlock:
         self.trait_impl = False
         self.region = None
         self.regionsig = None
+        self.region_prelude = None
 
 
 def preprocess(path, flavour, subst=None):
@@ -176,6 +177,8 @@ def parse_template(lines, flavour):
             cur.rewrites.append(("sig" if m.group(1) else "all", m.group(3), m.group(4), {"": False, "?": True, "-all": "all"}[m.group(2)]))
         elif s.startswith("//@regionsig "):
             cur.regionsig = s[len("//@regionsig "):]
+        elif s.startswith("//@region-prelude "):
+            cur.region_prelude = s[len("//@region-prelude "):]
         elif s == "//@spec":
             sink = cur.spec
         elif s.startswith("//@loop "):
@@ -525,24 +528,20 @@ def apply_R15(body, stats):
 
 
 def apply_R7b(body, stats):
-    """`.ok_or_else(|| { de::Error::custom(format!(..)) })` -> `.ok_or_else(|| -> (e: ErrMsg) { err_msg() })`:
-    error payloads built with format! are replaced by an opaque message (string formatting is out of reach)."""
+    """serde error payloads built with format! are replaced by an opaque message (string formatting is out
+    of the verifier's reach): `de::Error::custom(<anything>)` -> `err_msg()`, and a closure `|| { err_msg() }`
+    gets the result annotation Verus needs."""
     while True:
         m = mask(body)
-        mm = re.search(r"\.\s*ok_or_else\s*\(", m)
-        found = None
-        for mm in re.finditer(r"\.\s*ok_or_else\s*\(", m):
-            op = mm.end() - 1
-            cl = match_close(m, op)
-            inner = body[op + 1:cl]
-            if "format!" in inner and "err_msg()" not in inner:
-                found = (op, cl)
-                break
-        if not found:
-            return body
-        op, cl = found
-        body = body[:op + 1] + "|| -> (e: ErrMsg) { err_msg() }" + body[cl:]
+        mm = re.search(r"(?<![\w:])de\s*::\s*Error\s*::\s*custom\s*\(", m)
+        if not mm:
+            break
+        op = mm.end() - 1
+        cl = match_close(m, op)
+        body = body[:mm.start()] + "err_msg()" + body[cl + 1:]
         stats["R7b"] = stats.get("R7b", 0) + 1
+    body = re.sub(r"\|\|\s*\{\s*err_msg\(\)\s*\}", "|| -> (e: ErrMsg) { err_msg() }", body)
+    return body
 
 
 def apply_R15c(body, stats):
@@ -895,6 +894,9 @@ def generate(template_path, flavour, repo="/repo", vacuity=False, rules=None, ba
         if b.region:
             nsig = b.regionsig
             stats["R11"] = 1
+            if b.region_prelude:
+                body = "\n        " + b.region_prelude + body
+                stats["R14"] = stats.get("R14", 0) + 1
         else:
             nsig = rewrite_sig(sig, b, heap_param)
         spec = list(b.spec)
